@@ -56,6 +56,20 @@ func init() {
 		}
 		return fr.e.strConst(types.TypeString(self.t, nil))
 	})
+	reg("(*reflect.rtype).Comparable", func(fr *frame, args []Value) Value {
+		self, ok := args[0].(RType)
+		if !ok {
+			unsupported("reflect.Type not made by reflect.TypeOf")
+		}
+		return fr.e.tt.Bool(types.Comparable(self.t))
+	})
+	reg("(reflect.Value).Type", func(fr *frame, args []Value) Value {
+		rv, ok := args[0].(RValue)
+		if !ok || rv.v.t == nil {
+			unsupported("reflect.Value.Type on a value not made by reflect.ValueOf")
+		}
+		return fr.e.rtypeIface(rv.v.t)
+	})
 	reg("reflect.ValueOf", func(fr *frame, args []Value) Value {
 		return RValue{args[0].(Iface)}
 	})
@@ -83,6 +97,23 @@ func init() {
 		if !types.ConvertibleTo(rv.v.t, tt.t) {
 			panic(targetPanic{e.runtimeErrorPlain("reflect.Value.Convert: value of type " + types.TypeString(rv.v.t, nil) + " cannot be converted to type " + types.TypeString(tt.t, nil)), "reflect.Value.Convert"})
 		}
+		// string <-> []byte
+		if isString(rv.v.t) && isByteSlice(tt.t) {
+			src := rv.v.v.(Str)
+			out := make([]Value, len(src.b))
+			for i, c := range src.b {
+				out[i] = c
+			}
+			return RValue{Iface{t: tt.t, v: Slice{out}}}
+		}
+		if isByteSlice(rv.v.t) && isString(tt.t) {
+			src := rv.v.v.(Slice)
+			out := make([]*Term, len(src.a))
+			for i, c := range src.a {
+				out[i] = c.(*Term)
+			}
+			return RValue{Iface{t: tt.t, v: Str{out}}}
+		}
 		// basic kinds only
 		_, sb := rv.v.t.Underlying().(*types.Basic)
 		_, db := tt.t.Underlying().(*types.Basic)
@@ -105,4 +136,13 @@ func init() {
 		}
 		return RValue{Iface{t: tt.t, v: fr.conv(nil, tt.t, rv.v.t, rv.v.v)}}
 	})
+}
+
+func isByteSlice(t types.Type) bool {
+	sl, ok := t.Underlying().(*types.Slice)
+	if !ok {
+		return false
+	}
+	b, ok := sl.Elem().Underlying().(*types.Basic)
+	return ok && b.Kind() == types.Uint8
 }
